@@ -39,7 +39,7 @@ struct Op {
     uint32_t size = 0;          // the size/length argument as passed
     int rounds = 0, mode = 0;   // Mantis
     int cpu = 1;                // INIT: CPU model index (0 generic, 1 sse2, 2 avx2 pinning models; >=3 grid models)
-    int failalloc = 0;          // the k-th allocation made during this op fails (0 = none)
+    int failalloc = 0;          // the k-th allocation made during this op fails (0 = none); negative: the |k|-th and every later one (memory exhausted)
     int prefill = 0;            // INIT: class of prior handle content (0 junk,1 zeros,2 0xFF,3 ptr to live block,4 ptr to guard page,5 keep previous bytes,6 image of another live object of the same kind)
     uint32_t flags = 0;
     int delta = 0;              // single-block: output = input + delta
